@@ -8,6 +8,7 @@ reversible competitors and small reversible perturbations of the result.
 """
 import ast
 import os
+import re
 import struct
 import warnings
 
@@ -119,6 +120,14 @@ def site_facts(repo_dir):
         if sw is None:
             raise RuntimeError('cannot classify warnings.warn call (%s): %s' % (key, call))
         out[key] = bool(sw)
+    # the rounding guard in front of `assert c <= 0`, in exactly the form the model mirrors
+    guard = re.compile(r'if0<c<=1e-9\*\(C\[i,j\]\+C\[j,i\]\)\*X_rs\[i\]\*X_rs\[j\]:c=0(\.0)?(#[^\n]*)?assertc<=0')
+
+    def has_guard(src):
+        lines = [l.split('#')[0] for l in src.split('\n')]
+        flat = ''.join(''.join(lines).split())
+        return bool(guard.search(flat))
+    out['guard'] = has_guard(py) and has_guard(pyx)
     return out
 
 
@@ -141,15 +150,19 @@ def translate(repo_dir, gen_dir):
 enspara/msm/libmsm.pyx — do not edit.  Facts about the `warnings.warn` call sites of the
 two Prinz estimators: `true` when the call passes the warning *class* as the message and the
 text as the category (`warnings.warn(exception.ConvergenceWarning, "...")`), which makes
-CPython raise `TypeError` instead of warning. -/
+CPython raise `TypeError` instead of warning.
+`cRoundingGuard`: both sources reset a tiny positive `c` to zero in front of `assert c <= 0`
+(`if 0 < c <= 1e-9 * (C[i, j] + C[j, i]) * X_rs[i] * X_rs[j]: c = 0.0`). -/
 namespace Ens.Generated.MleSite
 def warnSwappedPy : Bool := %s
 def warnSwappedPyx : Bool := %s
+def cRoundingGuard : Bool := %s
 end Ens.Generated.MleSite
-''' % ('true' if facts['py'] else 'false', 'true' if facts['pyx'] else 'false')
+''' % ('true' if facts['py'] else 'false', 'true' if facts['pyx'] else 'false',
+       'true' if facts['guard'] else 'false')
     changed = _write_if_changed(os.path.join(gen_dir, 'MleSite.lean'), text)
-    return {'summary': 'MleSite: warnSwappedPy=%s warnSwappedPyx=%s%s' %
-            (facts['py'], facts['pyx'], ' (rewritten)' if changed else ''), 'facts': facts}
+    return {'summary': 'MleSite: warnSwappedPy=%s warnSwappedPyx=%s cRoundingGuard=%s%s' %
+            (facts['py'], facts['pyx'], facts['guard'], ' (rewritten)' if changed else ''), 'facts': facts}
 
 
 # ----------------------------------------------------------------------------- helpers
@@ -366,9 +379,6 @@ def validity_problem(T, pi, tol=1e-9):
     return None
 
 
-KEY_ASSERT_C = 'assert-c-rounding'
-
-
 def _assert_site(e):
     """source text of the `assert` that failed (works for the compiled module through the staged .pyx)"""
     import traceback
@@ -563,11 +573,9 @@ def check_matrix(ctx, C, kind, m_py, m_c, sparse_fmt=None, int_dtype=False):
             elif got['error'] == 'assertion':
                 # `assert c <= 0` is a theorem in exact arithmetic (C12.c_nonpos): when it fires and the
                 # Float model fires too, it is the rounding of the running row sums
-                key = KEY_ASSERT_C if (got.get('site', '').startswith('assert c <= 0')
-                                       and mres.get('error') == 'assertion') else None
-                ctx.tag('assert-c-fired')
+                ctx.tag('assertion-fired')
                 ctx.violation('%s estimator ended in an AssertionError at `%s` %s' % (
-                    impl, got.get('site', '?'), got['msg']), r, key=key)
+                    impl, got.get('site', '?'), got['msg']), r)
             else:
                 ctx.violation('%s estimator raised %s: %s' % (impl, got['error'], got['msg']), r)
             compare_with_model(ctx, C, impl, got, mres, '%s estimator' % impl, r, rerun=rerun)
@@ -666,9 +674,7 @@ def check_matrix(ctx, C, kind, m_py, m_c, sparse_fmt=None, int_dtype=False):
             got = {'error': type(e).__name__, 'msg': str(e)[:100]}
         r = dict(rep, via='builders.mle', fmt=sparse_fmt, int_dtype=bool(int_dtype))
         if 'error' in got:
-            key = KEY_ASSERT_C if (got['error'] == 'assertion' and got.get('site', '').startswith('assert c <= 0')
-                                   and m_py.get('error') == 'assertion') else None
-            ctx.violation('builders.mle raised %s (%s)' % (got['error'], got.get('site') or got['msg']), r, key=key)
+            ctx.violation('builders.mle raised %s (%s)' % (got['error'], got.get('site') or got['msg']), r)
             compare_with_model(ctx, C, 'py', got, m_py, 'builders.mle', r)
         else:
             prob = validity_problem(*got['ok'])
